@@ -3,6 +3,7 @@
   are rectangular.  Property theorems only; helper lemmas live in Lemmas/Cells.lean.
 -/
 import GherkinVerif.Lemmas.Cells
+import GherkinVerif.KDecide
 namespace GV
 
 /-- The single-pass loop of `split_table_cells` + `table_cells` computes exactly the documented
@@ -39,6 +40,6 @@ theorem C12_ragged_first (rows : List Row) (r : Row) (h : raggedRow rows = some 
 /-- non-vacuity: a concrete row with an escaped pipe, an escaped newline preceded by a blank
     (the case the unrepaired code got wrong), and an empty cell. -/
 example : tableCells (lit "  | a \\n| b\\|c |  |\n") = [(5, lit "a \n"), (11, lit "b|c"), (19, [])] := by
-  decide +kernel
+  kdecide
 
 end GV
